@@ -58,7 +58,7 @@ fn write_real(text: &str) -> Result<Vec<u8>, String> {
 
 pub fn run(tier: Tier) -> i32 {
     let mut rep = Report::new("C19", tier);
-    let depth = tier.pick(4, 5);
+    let depth = tier.pick(4, 7);
     let seqs = all_seqs(LINES.len(), depth);
     const CHUNK: usize = 2048;
     let ntasks = seqs.len().div_ceil(CHUNK);
